@@ -218,6 +218,8 @@ class ConnRun:
         w = self.w
         if res == "ok":
             self.inject("EnvTcp", {"res": "ok"}, w.tcp_ok)
+        elif res == "okbad":  # connected, but the peer resets at once: configuring the socket fails
+            self.inject("EnvTcp", {"res": "okbad"}, lambda: w.tcp_ok(broken=True))
         else:
             self.inject("EnvTcp", {"res": "SocketAPIError"}, w.tcp_err)
 
@@ -287,7 +289,9 @@ class ConnRun:
         def fn():
             if w.noise:
                 return False
-            return w.chunk(b"\x01\x00\x00" if cls == "RequiresEncryptionAPIError" else b"\x02\x00\x00")
+            first = b"\x01" if cls == "RequiresEncryptionAPIError" else b"\x02"
+            # the offending first byte alone, or with more bytes behind it
+            return w.chunk(first + (b"" if self.w.rng.random() < 0.5 else b"\x00\x00"))
 
         self.inject("EnvJunk", {"cls": cls}, fn)
 
@@ -303,7 +307,8 @@ class ConnRun:
         self.inject("UserForce", {}, lambda: self.w.conn.force_disconnect())
 
     def ev_writefail(self, b: bool):
-        self.inject("SetWriteFail", {"b": b}, lambda: self.w.set_write_failure(OSError(32, "broken pipe") if b else None))
+        exc = self.w.rng.choice([OSError(32, "broken pipe"), ConnectionResetError(104, "reset"), RuntimeError("unable to perform operation on closed transport")])
+        self.inject("SetWriteFail", {"b": b}, lambda: self.w.set_write_failure(exc if b else None))
 
     def ev_call(self, id_: str, mode: str, key: int):
         conn = self.w.conn
@@ -539,7 +544,7 @@ def random_schedule(rng: random.Random, cfg: dict, n_events: int, p_fault: float
         )
 
     story = [("ev", "start"), ("ev", "resolve", "ok" if rng.random() > p_fault / 3 else "err"),
-             ("ev", "tcp", "ok" if rng.random() > p_fault / 3 else "err"), ("ev", "finish", cfg["login"])]
+             ("ev", "tcp", "ok" if rng.random() > p_fault / 3 else rng.choice(("err", "okbad"))), ("ev", "finish", cfg["login"])]
     if cfg["noise"]:
         r = rng.random()
         story.append(("ev", "handshake", "ok" if r > p_fault / 2 else rng.choice(("BadNameAPIError", "InvalidEncryptionKeyAPIError", "HandshakeAPIError"))))
@@ -612,6 +617,7 @@ CLOSERS_SYS = [
     [("tick",)],
     [("ev", "chunk", [{"k": "discreq"}]), ("ev", "chunk", [{"k": "A", "key": 1}])],
     [("ev", "cancel_op", "start")],
+    [("ev", "tcp", "okbad")],
     [("ev", "cancel_op", "finish")],
     [("ev", "disconnect"), ("iter", 1), ("ev", "cancel_op", "disconnect")],
 ]
